@@ -12,7 +12,7 @@ RULE = ("isvalidaa / isvalidcdr3 on every string up to length 4 over {C,A,F,W,x,
         "non-trivial = a cell that standardisation changes / a key present in only some tables")
 ASSUMPTIONS = ["tidytcells is the oracle for what a cell standardises to (property wording); what is decided is option routing, cell locality and input preservation",
                "multimerge tables have unique keys per table; without suffixes the value columns have distinct names"]
-REQUIRED_CLASSES = {"all": ["df_old-keyword", "same-text-in-tr-and-mhc-column", "empty-string", "non-string-object", "missing-cell", "junk-cell", "option-sensitive-cell", "col_mapper", "shifted-index", "extra-column", "merge-on-column", "merge-suffixes", "merge-partial-keys"]}
+REQUIRED_CLASSES = {"all": ["rotating-col_mapper", "object-dtype-table", "df_old-keyword", "same-text-in-tr-and-mhc-column", "empty-string", "non-string-object", "missing-cell", "junk-cell", "option-sensitive-cell", "col_mapper", "shifted-index", "extra-column", "merge-on-column", "merge-suffixes", "merge-partial-keys"]}
 MIN_OUTCOMES = 10
 AA = set("ACDEFGHIKLMNPQRSTVWY")
 
@@ -33,6 +33,8 @@ OPT_DEFAULT = dict(standardize=True, species="HomoSapiens", tcr_precision="gene"
 OPT_SPACE = dict(standardize=(True, False), species=("HomoSapiens", "MusMusculus"), tcr_precision=("gene", "allele"),
                  mhc_precision=("gene", "protein", "allele"), tcr_enforce_functional=(True, False),
                  strict_cdr3_standardization=(False, True), mapper=(False, True))
+# mapper=True renames fresh source names; mapper="swap" stores every column under the *standard name of the next column*
+# (a simultaneous rename that swaps / rotates standard names); object=True gives object-dtype columns (None stays None)
 
 
 def opt_product():
@@ -188,13 +190,22 @@ def _check_rows(acc, case):
     n = len(tab)
     multi = n > 1
     values = {c: [CELLS[c][row[i]] for row in tab] for i, c in enumerate(cols)}
-    src_names = {c: ("src_" + c if o["mapper"] else c) for c in cols}
+    variant = (n + len(cols) + sum(len(str(v)) for v in o.values()) + sum(sum(r_) for r_ in tab)) % 4
+    rotate = bool(o["mapper"]) and len(cols) >= 2 and variant in (1, 3)
+    if rotate:
+        acc.cls("rotating-col_mapper")
+        src_names = {c: cols[(i + 1) % len(cols)] for i, c in enumerate(cols)}      # column c is stored under the next standard name
+    else:
+        src_names = {c: ("src_" + c if o["mapper"] else c) for c in cols}
     data = {src_names[c]: values[c] for c in cols}
     if multi or len(cols) > 4:
         data["extra"] = list(range(n))
         data["Extra text"] = ["tRaV1-1"] * n
         acc.cls("extra-column")
     df = pd.DataFrame(data)
+    if variant in (2, 3):
+        df = df.astype(object)          # object-dtype columns mixing strings and None
+        acc.cls("object-dtype-table")
     if multi:
         df.index = range(20, 20 + n)
         acc.cls("shifted-index")
